@@ -72,15 +72,23 @@ type VerifSentPHCb struct {
 }
 
 type verifSentPHHandler struct {
-	v  *VerifSentPH
-	id int64
+	v     *VerifSentPH
+	id    int64
+	inner FrameHandler // the handler the connection registered (decorator mode), called after recording
 }
 
-func (f *verifSentPHHandler) OnAcked(wire.Frame) {
+func (f *verifSentPHHandler) OnAcked(fr wire.Frame) {
 	f.v.cbs = append(f.v.cbs, VerifSentPHCb{f.id, true})
+	if f.inner != nil {
+		f.inner.OnAcked(fr)
+	}
 }
-func (f *verifSentPHHandler) OnLost(wire.Frame) {
+
+func (f *verifSentPHHandler) OnLost(fr wire.Frame) {
 	f.v.cbs = append(f.v.cbs, VerifSentPHCb{f.id, false})
+	if f.inner != nil {
+		f.inner.OnLost(fr)
+	}
 }
 
 // verifSentPHCC is the recording fake congestion controller.
@@ -388,6 +396,7 @@ type VerifSentPHTracked struct {
 	Outstand  bool
 	PathProbe bool
 	FrameIDs  []int64 // ids of frames with a handler
+	Level     int64
 }
 
 func verifSentPHFrameIDs(p *packet) []int64 {
@@ -417,7 +426,7 @@ func (v *VerifSentPH) Tracked() []VerifSentPHTracked {
 				continue
 			}
 			out = append(out, VerifSentPHTracked{Space: i, PN: int64(s.history.firstPacketNumber) + int64(j), Length: int64(p.Length),
-				Included: p.includedInBytesInFlight, AckElicit: p.IsAckEliciting(), Outstand: p.Outstanding(), PathProbe: p.isPathProbePacket,
+				Included: p.includedInBytesInFlight, AckElicit: p.IsAckEliciting(), Outstand: p.Outstanding(), PathProbe: p.isPathProbePacket, Level: int64(p.EncryptionLevel),
 				FrameIDs: verifSentPHFrameIDs(p)})
 		}
 		for _, pp := range s.history.pathProbePackets {
@@ -491,4 +500,196 @@ func (v *VerifSentPH) AppSkipped() []int64 {
 		out = append(out, int64(pn))
 	}
 	return out
+}
+
+// ---- decorator: sits between a connection and its sent packet handler (unit sendglue) ----
+
+// VerifSentPHCall is one state-changing call the connection made on its sent packet handler.
+type VerifSentPHCall struct {
+	Kind       string // send ack timeout drop retry migrate recvbytes recvpacket queueprobe sendmode
+	L, Now, LA int64
+	SFs, Fs    []int64  // frame ids assigned by the decorator (negative: frame without handler)
+	Kinds      []string // Go type of every frame, Frames first, then StreamFrames
+	Size       int64
+	MTU, Probe bool
+	Rnd        int64
+	Delay      int64
+	Ranges     [][2]int64
+	N          int64
+	CS, HB     bool
+	Ret        int64
+	PN         int64
+	Popped     bool // SentPacket was preceded by PopPacketNumber at that level returning PN
+}
+
+// VerifSentPHDeco implements SentPacketHandler by forwarding to the wrapped handler; every frame handler is
+// wrapped by a recording proxy and every call is reported to OnCall (after it returned).
+type VerifSentPHDeco struct {
+	V         *VerifSentPH
+	inner     SentPacketHandler
+	OnCall    func(c *VerifSentPHCall)
+	pending   map[protocol.EncryptionLevel][2]int64 // popped pn, rnd
+	nextID    int64
+	IDKind    map[int64]string
+	IDLevel   map[int64]int64
+	IDHandler map[int64]string // Go type of the handler the connection registered
+}
+
+var _ SentPacketHandler = &VerifSentPHDeco{}
+
+// NewVerifSentPHDeco wraps h; the congestion controller is replaced by the recording fake (always can send, budget).
+func NewVerifSentPHDeco(h SentPacketHandler) *VerifSentPHDeco {
+	v := VerifSentPHWrap(h)
+	if v == nil {
+		return nil
+	}
+	v.h.congestion = v.cc
+	return &VerifSentPHDeco{V: v, inner: h, pending: map[protocol.EncryptionLevel][2]int64{}, IDKind: map[int64]string{}, IDLevel: map[int64]int64{}, IDHandler: map[int64]string{}}
+}
+
+func (d *VerifSentPHDeco) call(c *VerifSentPHCall) {
+	if d.OnCall != nil {
+		d.OnCall(c)
+	}
+}
+
+func (d *VerifSentPHDeco) SentPacket(t monotime.Time, pn, largestAcked protocol.PacketNumber, streamFrames []StreamFrame, frames []Frame,
+	encLevel protocol.EncryptionLevel, ecn protocol.ECN, size protocol.ByteCount, isPathMTUProbePacket, isPathProbePacket bool,
+) {
+	c := &VerifSentPHCall{Kind: "send", L: int64(encLevel), Now: int64(t), LA: int64(largestAcked), Size: int64(size), MTU: isPathMTUProbePacket, Probe: isPathProbePacket, PN: int64(pn)}
+	if p, ok := d.pending[encLevel]; ok && p[0] == int64(pn) {
+		c.Popped, c.Rnd = true, p[1]
+		delete(d.pending, encLevel)
+	}
+	var nf []Frame
+	for _, f := range frames {
+		id := d.nextID
+		d.nextID++
+		d.IDKind[id], d.IDLevel[id] = fmt.Sprintf("%T", f.Frame), int64(encLevel)
+		c.Kinds = append(c.Kinds, fmt.Sprintf("%T", f.Frame))
+		if f.Handler != nil {
+			d.IDHandler[id] = fmt.Sprintf("%T", f.Handler)
+			nf = append(nf, Frame{Frame: f.Frame, Handler: &verifSentPHHandler{v: d.V, id: id, inner: f.Handler}})
+			c.Fs = append(c.Fs, id)
+		} else {
+			nf = append(nf, f)
+			c.Fs = append(c.Fs, -1-id)
+		}
+	}
+	var nsf []StreamFrame
+	for _, f := range streamFrames {
+		id := d.nextID
+		d.nextID++
+		d.IDKind[id], d.IDLevel[id] = "*wire.StreamFrame", int64(encLevel)
+		c.Kinds = append(c.Kinds, "*wire.StreamFrame")
+		if f.Handler != nil {
+			d.IDHandler[id] = fmt.Sprintf("%T", f.Handler)
+			nsf = append(nsf, StreamFrame{Frame: f.Frame, Handler: &verifSentPHHandler{v: d.V, id: id, inner: f.Handler}})
+			c.SFs = append(c.SFs, id)
+		} else {
+			nsf = append(nsf, f)
+			c.SFs = append(c.SFs, -1-id)
+		}
+	}
+	d.inner.SentPacket(t, pn, largestAcked, nsf, nf, encLevel, ecn, size, isPathMTUProbePacket, isPathProbePacket)
+	d.call(c)
+}
+
+func (d *VerifSentPHDeco) ReceivedAck(f *wire.AckFrame, encLevel protocol.EncryptionLevel, rcvTime monotime.Time) (bool, error) {
+	c := &VerifSentPHCall{Kind: "ack", L: int64(encLevel), Now: int64(rcvTime), Delay: int64(f.DelayTime)}
+	for _, r := range f.AckRanges {
+		c.Ranges = append(c.Ranges, [2]int64{int64(r.Smallest), int64(r.Largest)})
+	}
+	a1, err := d.inner.ReceivedAck(f, encLevel, rcvTime)
+	switch {
+	case err != nil:
+		c.Ret = 9
+		var te *qerr.TransportError
+		if errors.As(err, &te) && te.ErrorCode == qerr.ProtocolViolation {
+			if strings.Contains(te.ErrorMessage, "unsent") {
+				c.Ret = 1
+			} else if strings.Contains(te.ErrorMessage, "skipped") {
+				c.Ret = 2
+			}
+		}
+	case a1:
+		c.Ret = 10
+	}
+	d.call(c)
+	return a1, err
+}
+
+func (d *VerifSentPHDeco) ReceivedPacket(l protocol.EncryptionLevel, t monotime.Time) {
+	d.inner.ReceivedPacket(l, t)
+	d.call(&VerifSentPHCall{Kind: "recvpacket", L: int64(l), Now: int64(t)})
+}
+
+func (d *VerifSentPHDeco) ReceivedBytes(n protocol.ByteCount, t monotime.Time) {
+	d.inner.ReceivedBytes(n, t)
+	d.call(&VerifSentPHCall{Kind: "recvbytes", N: int64(n), Now: int64(t)})
+}
+
+func (d *VerifSentPHDeco) DropPackets(l protocol.EncryptionLevel, t monotime.Time) {
+	d.inner.DropPackets(l, t)
+	d.call(&VerifSentPHCall{Kind: "drop", L: int64(l), Now: int64(t)})
+}
+
+func (d *VerifSentPHDeco) ResetForRetry(t monotime.Time) {
+	d.inner.ResetForRetry(t)
+	next, toSkip := d.V.appGenState()
+	d.call(&VerifSentPHCall{Kind: "retry", Now: int64(t), Rnd: toSkip - next - 3})
+}
+
+func (d *VerifSentPHDeco) SendMode(now monotime.Time) SendMode {
+	m := d.inner.SendMode(now)
+	d.call(&VerifSentPHCall{Kind: "sendmode", Now: int64(now), CS: d.V.cc.canSend, HB: d.V.cc.hasBudget, Ret: int64(m)})
+	return m
+}
+func (d *VerifSentPHDeco) TimeUntilSend() monotime.Time            { return d.inner.TimeUntilSend() }
+func (d *VerifSentPHDeco) SetMaxDatagramSize(c protocol.ByteCount) { d.inner.SetMaxDatagramSize(c) }
+func (d *VerifSentPHDeco) ECNMode(short bool) protocol.ECN         { return d.inner.ECNMode(short) }
+func (d *VerifSentPHDeco) GetLossDetectionTimeout() monotime.Time {
+	return d.inner.GetLossDetectionTimeout()
+}
+func (d *VerifSentPHDeco) PeekPacketNumber(l protocol.EncryptionLevel) (protocol.PacketNumber, protocol.PacketNumberLen) {
+	return d.inner.PeekPacketNumber(l)
+}
+
+func (d *VerifSentPHDeco) QueueProbePacket(l protocol.EncryptionLevel) bool {
+	b := d.inner.QueueProbePacket(l)
+	c := &VerifSentPHCall{Kind: "queueprobe", L: int64(l)}
+	if b {
+		c.Ret = 1
+	}
+	d.call(c)
+	return b
+}
+
+func (d *VerifSentPHDeco) PopPacketNumber(l protocol.EncryptionLevel) protocol.PacketNumber {
+	_, old := d.V.appGenState()
+	pn := d.inner.PopPacketNumber(l)
+	d.pending[l] = [2]int64{int64(pn), d.V.rndSince(old)}
+	return pn
+}
+
+func (d *VerifSentPHDeco) OnLossDetectionTimeout(now monotime.Time) error {
+	_, old := d.V.appGenState()
+	err := d.inner.OnLossDetectionTimeout(now)
+	c := &VerifSentPHCall{Kind: "timeout", Now: int64(now), Rnd: d.V.rndSince(old)}
+	if err != nil {
+		c.Ret = 9
+		if strings.Contains(err.Error(), "bytes_in_flight is 0") {
+			c.Ret = 3
+		} else if strings.Contains(err.Error(), "unexpected encryption level") {
+			c.Ret = 4
+		}
+	}
+	d.call(c)
+	return err
+}
+
+func (d *VerifSentPHDeco) MigratedPath(now monotime.Time, size protocol.ByteCount) {
+	d.inner.MigratedPath(now, size)
+	d.V.h.congestion = d.V.cc
+	d.call(&VerifSentPHCall{Kind: "migrate", Now: int64(now)})
 }
